@@ -185,7 +185,7 @@ def run(ctx):
   ctx.model('MC_SDML', 'MC_SDML.cfg', workers=4)
   rng = np.random.default_rng(ctx.seed + 13)
   rs = []
-  for i in range(16 if ctx.quick else 384):
+  for i in range(16 if ctx.quick else 640):
     rs.append(dict(supervised=bool(i % 2), n=5 if ctx.quick else 10, seed=int(rng.integers(1 << 30))))
   ctx.rule = ('random labelled pair sets x priors {identity, covariance, random, SPD array} x sparsity_param in {0.01, 0.05, '
               '0.25, 1} x balance_param chosen inside (3/5 of the cases) or outside the region where the graphical-lasso '
